@@ -194,7 +194,7 @@ P_C02 == [][C02_Step]_mvars
 P_C03 == [][C03_Step]_mvars
 P_C05 == [][C05_Step /\ C05_StakingStep]_mvars
 P_C16 == [][C16_Step]_mvars
-P_C17 == [][C17_Set]_mvars
+P_C17 == [][C17_Set /\ C17_Totals]_mvars
 P_C18 == [][C18_Step]_mvars
 P_C19 == [][C19_Step /\ C19_PayoutStep]_mvars
 P_C27 == [][C27_Step]_mvars
